@@ -9,13 +9,15 @@ Definition field_types : list string := ["angle"; "object_height"].
 Definition aperture_types : list string := ["EPD"; "imageFNO"; "objectNA"].
 
 (** "height fields or telecentricity with an infinite object; [angle fields,] EPD or image F-number with
-    telecentric object space" *)
+    telecentric object space"; sixth rule (since fix 70bd414): an object-space NA with the object at infinity
+    defines no entrance pupil diameter *)
 Definition rejected (infinite_object : bool) (field_type : string) (telecentric : bool) (aperture_type : string) : bool :=
   (infinite_object && String.eqb field_type "object_height")
   || (infinite_object && telecentric)
   || (telecentric && String.eqb field_type "angle")
   || (telecentric && String.eqb aperture_type "EPD")
-  || (telecentric && String.eqb aperture_type "imageFNO").
+  || (telecentric && String.eqb aperture_type "imageFNO")
+  || (infinite_object && String.eqb aperture_type "objectNA").
 
 (** polarization-dependent coatings need a polarization state *)
 Definition pol_rejected (polarization : string) (uses_polarization : bool) : bool :=
